@@ -7,6 +7,7 @@ import (
 	"errors"
 	"fmt"
 	"reflect"
+	"runtime"
 	"sort"
 	"sync"
 	"sync/atomic"
@@ -97,6 +98,9 @@ func panicValue(kind string, h, call int) any {
 	case "nilerrptr":
 		var e *valErr
 		return e
+	case "nil":
+		// panic(nil): the runtime hands recover a *runtime.PanicNilError
+		return nil
 	case "badstringer":
 		return badStringer(7 + h)
 	case "error":
@@ -297,6 +301,9 @@ func run(c *Case) *vkit.Outcome {
 			}
 			if h.Panic == "always" || (h.Panic == "nth" && p == h.N) {
 				v := panicValue(h.ValKind, hi, p)
+				if v == nil {
+					v = &runtime.PanicNilError{}
+				}
 				numIn := 1
 				if h.Ctx {
 					numIn = 2
